@@ -79,6 +79,63 @@ Qed.
 Lemma gen_pie_from_eq e : gen_ParseIndexError_from e = Ret (ParseIndexError_InvalidInteger e).
 Proof. reflexivity. Qed.
 
+(* std's `str::parse::<usize>` ([prim_parse_usize], faithful on arbitrary text: sign, InvalidDigit, incremental overflow) is
+   the model's [parse_usize] on strings of ASCII digits -- the only strings Index::from_str hands it *)
+Lemma dec_acc_ge : forall s acc n, dec_acc acc s = Some n -> acc <= n.
+Proof.
+  induction s as [|c r IH]; intros acc n H; cbn [dec_acc] in H.
+  - inversion H. lia.
+  - destruct (is_digit c); [|discriminate]. apply IH in H. lia.
+Qed.
+
+Lemma position_nondigit_none_cons c r :
+  position (fun c => negb (is_digit c)) (c :: r) = None ->
+  is_digit c = true /\ position (fun c => negb (is_digit c)) r = None.
+Proof.
+  cbn [position]. destruct (is_digit c); cbn [negb]; [|discriminate].
+  destruct (position (fun c0 => negb (is_digit c0)) r); [discriminate|]. auto.
+Qed.
+
+Lemma parse_digits_all : forall s acc, position (fun c => negb (is_digit c)) s = None -> acc <= USIZE_MAX ->
+  parse_digits acc s =
+  match dec_acc acc s with
+  | Some n => if n <=? USIZE_MAX then Ok n else Err ParseIntError_PosOverflow
+  | None => Err ParseIntError_InvalidDigit
+  end.
+Proof.
+  induction s as [|c r IH]; intros acc Hp Ha; cbn [parse_digits dec_acc].
+  - destruct (N.leb_spec acc USIZE_MAX); [reflexivity|lia].
+  - apply position_nondigit_none_cons in Hp as [Hd Hr]. rewrite Hd.
+    destruct (N.ltb_spec USIZE_MAX (10 * acc + (c - 48))) as [Hov|Hok].
+    + destruct (dec_acc (10 * acc + (c - 48)) r) as [n|] eqn:E.
+      * apply dec_acc_ge in E. destruct (N.leb_spec n USIZE_MAX); [lia|reflexivity].
+      * exfalso. clear -Hr E. revert E. generalize (10 * acc + (c - 48)).
+        induction r as [|d r IHr]; intros a E; cbn [dec_acc] in E; [discriminate|].
+        apply position_nondigit_none_cons in Hr as [Hd Hr']. rewrite Hd in E. exact (IHr Hr' _ E).
+    + apply IH; [exact Hr|exact Hok].
+Qed.
+
+Lemma prim_parse_usize_digits s : position (fun c => negb (is_digit c)) s = None ->
+  prim_parse_usize s =
+  match parse_usize s with
+  | Ok n => Ok n
+  | Err IntEmpty => Err ParseIntError_Empty
+  | Err IntPosOverflow => Err ParseIntError_PosOverflow
+  end.
+Proof.
+  intros Hp. destruct s as [|c r]; [reflexivity|].
+  unfold prim_parse_usize, parse_usize.
+  pose proof (position_nondigit_none_cons c r Hp) as [Hd _].
+  assert (Hc : (c =? 43) = false).
+  { unfold is_digit in Hd. apply andb_prop in Hd as [H1 _]. apply N.leb_le in H1. apply N.eqb_neq. lia. }
+  rewrite Hc. rewrite (parse_digits_all (c :: r) 0 Hp) by (unfold USIZE_MAX; lia).
+  destruct (dec_acc 0 (c :: r)) as [n|] eqn:E.
+  - destruct (n <=? USIZE_MAX); reflexivity.
+  - exfalso. clear -Hp E. revert E. generalize 0.
+    induction (c :: r) as [|d l IHl]; intros a E; cbn [dec_acc] in E; [discriminate|].
+    apply position_nondigit_none_cons in Hp as [Hd Hr']. rewrite Hd in E. exact (IHl Hr' _ E).
+Qed.
+
 (* Index::from_str, as it stands in the source, is the model's index_from_str on every Rust `str` *)
 Theorem gen_index_from_str_eq : forall s : str, utf8_valid s = true ->
   gen_Index_from_str s =
@@ -92,8 +149,8 @@ Proof.
   destruct (str_eqb s [45]); [reflexivity|].
   destruct (starts_with s [48] && negb (str_eqb s [48])); [reflexivity|].
   rewrite (chars_position_nondigit s Hs). unfold positionN.
-  destruct (position (fun c => negb (is_digit c)) s) as [off|]; cbn [option_map]; [reflexivity|].
-  unfold prim_parse_usize. destruct (parse_usize s) as [n|[|]]; reflexivity.
+  destruct (position (fun c => negb (is_digit c)) s) as [off|] eqn:Hpos; cbn [option_map]; [reflexivity|].
+  rewrite (prim_parse_usize_digits s) by exact Hpos. destruct (parse_usize s) as [n|[|]]; reflexivity.
 Qed.
 
 (* hence the primitive used by the generated tree walks for `Token::to_index` IS the regenerated parser *)
